@@ -1,7 +1,6 @@
 #!/bin/bash
-# runs every claimed check's thorough tier in sequence (used with `vp run`); prints one summary line per property
+# runs every claimed check's thorough tier (used with `vp run`), LANES at a time; prints one summary line per property
 cd "$(dirname "$0")/.."
 ./build.sh || exit 1
-for p in $(python3 -c "import json; print(' '.join(c['property_id'] for c in json.load(open('MANIFEST.json'))['checks']))"); do
-  /usr/bin/time -f "$p wall=%es" ./check $p --tier thorough 2>&1 | grep -E "^(OK|FAIL|VIOLATION|KNOWN-FINDING|C[0-9]+ wall)" | cut -c1-300
-done
+python3 -c "import json; print('\n'.join(c['property_id'] for c in json.load(open('MANIFEST.json'))['checks']))" |
+  xargs -P "${LANES:-2}" -I{} sh -c '/usr/bin/time -f "{} wall=%es" ./check {} --tier thorough 2>&1 | grep -E "^(OK|FAIL|VIOLATION|KNOWN-FINDING|DISAGREEMENT|C[0-9]+ wall)" | cut -c1-400'
